@@ -494,8 +494,7 @@ R.region("tier-walk-0", lambda fn: _tier_walks(fn)[0:1])
 R.region("tier-walk-1", lambda fn: _tier_walks(fn)[1:2])
 R.untype("C11QVec")
 R.record("C11HitObj", {"id": "str"})
-R.funtype("C11SearchTiered", params=["owner", "q_vec", "k", "tier", "hints"], returns="List[C11HitObj]",
-          requires=[
+_SEARCH_REQ = [
               ("threshold-passed", "'sim_threshold' in hints and hints['sim_threshold'] == g_thr"),
               ("owner-is-the-stage-owner", "owner == g_owner"),
               ("k-is-k-retrieval", "k == g_k"),
@@ -503,7 +502,9 @@ R.funtype("C11SearchTiered", params=["owner", "q_vec", "k", "tier", "hints"], re
               ("exact-tier-gets-recency-window", "tier != 'exact_semantic' or ('recent_days' in hints and hints['recent_days'] == g_days)"),
               ("cluster-tier-gets-top-m", "tier != 'cluster_semantic' or ('clusters_top_m' in hints and hints['clusters_top_m'] == g_topm)"),
               ("logical-now-passed", "is_none(g_now) or len(some(g_now)) == 0 or ('now' in hints and hints['now'] == some(g_now))"),
-          ],
+          ]
+R.funtype("C11SearchTiered", params=["owner", "q_vec", "k", "tier", "hints"], returns="List[C11HitObj]",
+          requires=_SEARCH_REQ,
           effects_before=["n_calls = n_calls + 1"])
 R.objtype("C11IndexIface", {"search_tiered": "C11SearchTiered"})
 _WALK_INV = ["implies(k_retrieval >= 1, len(retrieved) < k_retrieval)",
@@ -534,3 +535,39 @@ for _t in ("tier-walk-0", "tier-walk-1"):
         # hit objects are not dicts here (the dict-shaped hits of the LanceDB backend go through _EpRefShim)
         unreachable_ok=["hid = str(h.get('id'))", "raw_hits_by_id[hid] = h", "ref = _EpRefShim(h)"],
     )
+
+
+# ------------------------------------------------------------------ the parallel T2 path hands each shard the same hints
+# clematis/engine/stages/t2/parallel.py:collect_shard_hits is what every T2 shard task runs (C09: "parallelism is
+# indistinguishable from sequential execution"): whole-function contract against the same abstract index interface as
+# the sequential tier walks -- the shard's search_tiered has the *same* call-site preconditions (threshold, owner, k,
+# the tier's own hint, logical now), so a shard search cannot be configured differently from the sequential one.
+T2P = "clematis/engine/stages/t2/parallel.py:"
+R.record("C11ShardHit", {"id": "str", "text": "str", "score": "float"})
+R.funtype("C11ShardSearch", params=["owner", "q_vec", "k", "tier", "hints"], returns="List[C11ShardHit]", requires=_SEARCH_REQ,
+          effects_before=["n_calls = n_calls + 1"])
+R.objtype("C11ShardIface", {"search_tiered": "C11ShardSearch"})
+R.dictshape("C11NormHit", required={"id": "str", "text": "str", "score": "float"})
+R.contract(
+    T2P + "collect_shard_hits", ["C09", "C11"], callee=False,
+    types={"shard": "C11ShardIface", "tiers": "List[str]", "owner_query": "Optional[str]", "q_vec": "Un[C11QVec]", "k_retrieval": "int",
+           "now_str": "Optional[str]", "sim_threshold": "float", "clusters_top_m": "int", "exact_recent_days": "int"},
+    returns="Dict[str, List[C11NormHit]]",
+    ghost={"g_thr": ("float", "any"), "g_owner": ("Optional[str]", "any"), "g_k": ("int", "any"), "g_days": ("int", "any"),
+           "g_topm": ("int", "any"), "g_now": ("Optional[str]", "any"), "n_calls": ("int", "0")},
+    requires=[("ghosts-name-the-stage-values", "g_thr == sim_threshold and g_owner == owner_query and g_k == k_retrieval and "
+               "g_days == exact_recent_days and g_topm == clusters_top_m and g_now == now_str")],
+    ensures=[
+        ("at-most-one-search-per-tier", "n_calls <= len(tiers)"),
+        ("only-served-tiers-reported", "forall((t, 'str'), t in result, t == 'exact_semantic' or t == 'cluster_semantic' or t == 'archive')"),
+        ("tiers-untouched", "seq_eq(tiers, old(tiers))"),
+    ],
+    raises="none",
+    loops={0: {"inv": ["n_calls <= _i",
+                       "forall((t, 'str'), t in out, t == 'exact_semantic' or t == 'cluster_semantic' or t == 'archive')"], "modifies": ["n_calls"]},
+           1: {"inv": ["len(normalised) == _i", "n_calls == pre_loop(n_calls)"]}},
+    locals={"hits": "List[C11ShardHit]", "normalised": "List[C11NormHit]", "out": "Dict[str, List[C11NormHit]]"},
+    # the abstract shard does not raise; its hits are objects, not dicts
+    unreachable_ok=["hits = []", "data = dict(hit)", "data['id'] = str(data.get('id'))", "if 'score' not in data:",
+                    "data['score'] = float(data.get('_score', 0.0))", "normalised.append(data)"],
+)
